@@ -42,6 +42,51 @@ func c12R5(c *Ctx) {
 			}
 		}
 	}
+	// the count may live in a helper (e.g. a registration method of the SCTP transport): calls that can reach a write count too
+	{
+		var writers []*types.Func
+		for _, f := range c.P.AllFuncs() {
+			if f.Decl == nil || f.Decl.Body == nil || f == fi || f.Obj == nil {
+				continue
+			}
+			finfo := f.Pkg.TypesInfo
+			w := false
+			ast.Inspect(f.Decl.Body, func(x ast.Node) bool {
+				switch s := x.(type) {
+				case *ast.IncDecStmt:
+					if core.FieldOf(finfo, s.X) == requested {
+						w = true
+					}
+				case *ast.AssignStmt:
+					for _, l := range s.Lhs {
+						if core.FieldOf(finfo, l) == requested {
+							w = true
+						}
+					}
+				}
+				return true
+			})
+			if w {
+				writers = append(writers, f.Obj)
+			}
+		}
+		if len(writers) > 0 {
+			may := c.P.BuildStaticCalls().MayReach(writers...)
+			for _, n := range g.Nodes {
+				if n.Ast == nil {
+					continue
+				}
+				core.InspectShallow(n.Ast, func(x ast.Node) bool {
+					if call, ok := x.(*ast.CallExpr); ok {
+						if fn := core.Callee(info, call); fn != nil && fn != fi.Obj && may[fn] {
+							incs = append(incs, n.ID)
+						}
+					}
+					return true
+				})
+			}
+		}
+	}
 	pos := c.P.Pos(fi.Decl.Pos())
 	if len(incs) == 0 {
 		r.Undecided(rule, "CreateDataChannel|no-failure-after-count", pos, "CreateDataChannel does not write dataChannelsRequested directly (moved into a helper?)")
